@@ -454,6 +454,48 @@ def bundle_mutations(rng, b):
         yield bytes(x)
 
 
+def sized_msg(L):
+    """a valid message of exactly L bytes (L a multiple of 4, L >= 8): "/aa…" + ","."""
+    k = L - 6
+    a = b"/" + b"a" * k
+    m = a + b"\0" * (L - 4 - len(a)) + b",\0\0\0"
+    assert len(m) == L, (L, len(m))
+    return m
+
+
+def bundle_cycles(rng):
+    """Bundles whose last element-size field — complete, or cut after 1..3 bytes and completed with the zero bytes
+    deref() supplies behind the block — would move the 32-bit position *backwards* onto an earlier size field
+    (4 + V = -(bytes walked since that field) mod 2^32): the walk of bundle_ring_length then never ends unless the
+    "element has to fit" test rejects V.  A cut field needs the walked distance to be 252 mod 256 (3 bytes present)
+    or 65532 mod 65536 (2 bytes present)."""
+    for dist, keep in ((252, 3), (252, 3), (252, 3), (508, 3), (65532, 2)):
+        # elements in front of the target field (any), then elements whose 4+L sum to `dist`
+        pre = [rng.choice([8, 12, 16, 40]) for _ in range(rng.randint(0, 2))]
+        parts = []
+        left = dist
+        while left > 0:
+            if left <= 256 and (rng.random() < 0.4 or left < 24):
+                step = left
+            else:
+                step = min(left, 4 * rng.randint(3, 40)) if left < 4000 else left
+            if left - step in (4, 8):            # the remainder must hold another 4+L with L >= 8
+                step = left
+            parts.append(step - 4)
+            left -= step
+        b = bytearray(BUNDLE + struct.pack(">Q", rng.choice([0, 1, rng.getrandbits(64)])))
+        for L in pre + parts:
+            b += struct.pack(">I", L) + sized_msg(L)
+        v = struct.pack(">I", (2 ** 32 - 4 - dist) % 2 ** 32)
+        assert v[keep:] == b"\0" * (4 - keep)
+        for k in (1, 2, 3, 4):
+            yield bytes(b) + v[:k]
+        yield bytes(b) + v + b"\0" * 4
+        yield bytes(b) + v + sized_msg(8)
+        yield bytes(b) + b"\xff" * keep
+        yield bytes(b) + b"\xff" * 4
+
+
 ALPHA8 = [0x00, 0x2f, 0x2c, 0x69, 0x73, 0x62, 0x61, 0xff]
 ALPHA6 = [0x00, 0x69, 0x73, 0x62, 0x01, 0xff]
 
@@ -643,6 +685,11 @@ def _generate(rng, tier, stats):
     for v in ADV:
         stats["bundles"] += 1
         yield emit("bundle", BUNDLE + b"\0" * 8 + struct.pack(">I", v))
+    stats["bundle_cycles"] = 0
+    for _ in range(3 if quick else 40):
+        for x in bundle_cycles(rng):
+            stats["bundle_cycles"] += 1
+            yield emit("bundle", x)
     # 6. coverage-guided stream
     stats["fuzz_inputs"] = 0
     for m in fuzz_stream(rng, tier, stats):
